@@ -270,6 +270,7 @@ def make_stub(P, fi, inner_stubs):
                     I.frames.pop()
                 e = AbsRaise(ev, site=site, explicit=explicit, note=note)
                 e.origin_stack = tuple(f.fi for f in I.frames) + (sfi,)
+                e.origin_fn = sfi.qualname
                 raise e
         if merged is None:
             from sa.interp import PathCut
